@@ -82,6 +82,36 @@ def run_item(item):
                         o["verdict"] = "UNDECIDED"
                         o["reason"] = ("loop obligation refuted over a havocked loop state (no replayable input): " if o.get("outcome") == "loop obligation"
                                        else "derived under a loop invariant that is not established: ") + str(o.get("clause"))
+            # A refutation whose counter-model, run on the real code, SATISFIES the clause, while the engine used as an
+            # interpreter on the very same concrete input reaches another kind of outcome than CPython (returns where
+            # CPython raises, another exception class): the counter-model is an artefact of the engine (a construct it
+            # executes differently from CPython), not a property of the code.  The proof counts as lost and the
+            # run-time evaluation below decides.  When engine and CPython agree on the input, the refutation stands
+            # (it rests on values of uninterpreted functions that no concrete input realises: no-failing-input-found).
+            if not loop_bad and not hasattr(c, "loops"):
+                from pyvc.replay import replay_contract, engine_outcome
+                seen_models = {}
+                for o in obls:
+                    if o["verdict"] != "REFUTED":
+                        continue
+                    mk = json.dumps([o.get("model"), o.get("stubs")], sort_keys=True, default=str)
+                    if mk not in seen_models:
+                        verdict = None
+                        try:
+                            rp = replay_contract(c, o.get("model"), o.get("stubs"), o.get("clause"))
+                            if rp.get("confirmed") is False and not rp.get("failed") and rp.get("observed_kind"):
+                                eo = engine_outcome(c, o.get("model"), o.get("stubs"))
+                                rk, rc = rp["observed_kind"]
+                                if eo is not None and (eo[0] != rk or (rk == "raise" and eo[1].__name__ != rc
+                                                                       and not any(b.__name__ == rc for b in eo[1].__mro__)
+                                                                       and eo[1].__name__ not in rp.get("observed_mro", []))):
+                                    verdict = f"engine artefact: on the counter-model the engine reaches {eo[0]} {getattr(eo[1], '__name__', '')}, CPython {rk} {rc or ''} and every clause holds there"
+                        except Exception:
+                            verdict = None
+                        seen_models[mk] = verdict
+                    if seen_models[mk]:
+                        o["verdict"] = "UNDECIDED"
+                        o["reason"] = seen_models[mk]
             und = [o for o in obls if o["verdict"] == "UNDECIDED"]
             if und:
                 from pyvc.bounded import bounded_contract
